@@ -1,0 +1,1 @@
+//! Hooks of group 'session' for the /verif machinery.
